@@ -4,11 +4,14 @@ import (
 	"fmt"
 	"io"
 	"math/big"
+	"os"
 	"sync"
+	"time"
 
 	"github.com/bronlabs/bron-crypto/pkg/base/nt"
 	"github.com/bronlabs/bron-crypto/pkg/base/nt/cardinal"
 	"github.com/bronlabs/bron-crypto/pkg/base/nt/num"
+	"github.com/bronlabs/bron-crypto/pkg/base/nt/numct"
 	"github.com/bronlabs/bron-crypto/pkg/base/nt/znstar"
 	"github.com/bronlabs/bron-crypto/pkg/base/prng/pcg"
 
@@ -27,7 +30,11 @@ type zsCfg struct {
 
 func zsCfgs() []zsCfg {
 	var out []zsCfg
-	for _, pq := range [][2]*big.Int{{bi(5), bi(7)}, {bi(11), bi(13)}, {bi(17), bi(19)}, {p64a, p64b}} {
+	rsaPairs := [][2]*big.Int{{bi(5), bi(7)}, {bi(11), bi(13)}, {bi(17), bi(19)}, {p64a, p64b}}
+	if engine.Thorough() {
+		rsaPairs = append(rsaPairs, [2]*big.Int{bi(29), bi(31)}, [2]*big.Int{bi(37), bi(41)}, [2]*big.Int{new(big.Int).Sub(pow2(127), bi(1)), prevPrime(new(big.Int).Sub(pow2(127), bi(3)))})
+	}
+	for _, pq := range rsaPairs {
 		for _, known := range []bool{true, false} {
 			out = append(out, zsCfg{fmt.Sprintf("RSA(%s,%s,known=%v)", show(pq[0]), show(pq[1]), known), pq[0], pq[1], false, known})
 		}
@@ -38,6 +45,18 @@ func zsCfgs() []zsCfg {
 		}
 	}
 	return out
+}
+
+// prevPrime returns the largest prime <= v (deterministic search).
+func prevPrime(v *big.Int) *big.Int {
+	p := new(big.Int).Set(v)
+	if p.Bit(0) == 0 {
+		p.Sub(p, bi(1))
+	}
+	for !p.ProbablyPrime(32) {
+		p.Sub(p, bi(2))
+	}
+	return p
 }
 
 // elem is the common surface of the four concrete element types that the body needs.
@@ -181,7 +200,9 @@ func zsRun[E zsOps[E]](x *engine.X, cfg zsCfg, g zsGroup[E], n, amb *big.Int, va
 	var units []E
 	var unitVals []*big.Int
 	for _, v := range vals {
-		d := func(op string) func() string { return func() string { return fmt.Sprintf("%s.%s(%s)", cfg.name, op, show(v)) } }
+		d := func(op string) func() string {
+			return func() string { return fmt.Sprintf("%s.%s(%s)", cfg.name, op, show(v)) }
+		}
 		e, err := g.FromNat(mustN(v))
 		x.Case("")
 		if (err == nil) != isUnit(v) {
@@ -211,7 +232,9 @@ func zsRun[E zsOps[E]](x *engine.X, cfg zsCfg, g zsGroup[E], n, amb *big.Int, va
 	es := []*big.Int{bi(0), bi(1), bi(2), bi(3), new(big.Int).Sub(cfg.p, one), new(big.Int).Sub(cfg.q, one), n, new(big.Int).Mul(new(big.Int).Sub(cfg.p, one), new(big.Int).Sub(cfg.q, one)), new(big.Int).Add(pow2(64), one)}
 	for i, a := range units {
 		av := unitVals[i]
-		d := func(op string) func() string { return func() string { return fmt.Sprintf("%s: el(%s).%s", cfg.name, show(av), op) } }
+		d := func(op string) func() string {
+			return func() string { return fmt.Sprintf("%s: el(%s).%s", cfg.name, show(av), op) }
+		}
 		if part == 0 {
 			inv := new(big.Int).ModInverse(av, amb)
 			eqBig(x, "znstar/inv", d("Inv"), a.Inv().Value(), inv)
@@ -409,43 +432,46 @@ func (l *lockedReader) Read(p []byte) (int, error) {
 	return l.r.Read(p)
 }
 
-func stream(seedIdx int, salt uint64) io.Reader {
-	return &lockedReader{r: pcg.New(uint64(engine.Seed())*1000+uint64(seedIdx), salt), budget: 4 << 20}
+func stream(seedIdx int, bits uint) io.Reader {
+	return &lockedReader{r: pcg.New(uint64(engine.Seed())*1000+uint64(seedIdx), uint64(bits)), budget: 256<<10 + int(bits)*4096}
 }
 
 func primesBody() func(*engine.X) {
-	bitsList := []uint{16, 17, 20, 32, 33, 64, 128}
+	bitsList := []uint{16, 17, 20, 32, 33, 64, 128, 256}
 	if engine.Thorough() {
-		bitsList = append(bitsList, 24, 63, 65, 100, 256, 512)
+		bitsList = append(bitsList, 24, 63, 65, 100, 512)
 	}
 	forms := []string{"plain", "blum", "safe", "pair", "blum-pair", "safe-pair", "random"}
 	return func(x *engine.X) {
 		form := forms[x.Choose("form", len(forms))]
 		bits := bitsList[x.Choose("bits", len(bitsList))]
 		seedIdx := x.Choose("seed", 2)
-		rd := stream(seedIdx, uint64(bits))
+		rd := stream(seedIdx, bits)
 		prime := func(p *big.Int) bool { return p.ProbablyPrime(64) }
 		chk1 := func(kind string, p *big.Int, wantBits uint) {
-			d := fmt.Sprintf("%s(bits=%d, seed#%d) = %s", kind, wantBits, seedIdx, show(p))
+			// the value goes on a second line: the pair generators draw from the stream in two goroutines, so the concrete
+			// primes (not the postcondition) can differ between a run and its replay
+			d := fmt.Sprintf("%s(bits=%d, seed#%d)", kind, wantBits, seedIdx)
+			val := "\n value: " + show(p)
 			x.Case(fmt.Sprintf("%s/%d/%d", kind, wantBits, seedIdx))
 			if !prime(p) {
-				failf(x, "primes/"+form+"/not-prime", "%s is not prime", d)
+				failf(x, "primes/"+form+"/not-prime", "%s returned a composite%s", d, val)
 			}
 			if uint(p.BitLen()) != wantBits {
 				k := "primes/" + form + "/bitlen"
 				if (form == "blum" || form == "blum-pair") && wantBits%8 != 0 && uint(p.BitLen()) == (wantBits+7)/8*8 {
 					k = "primes/blum/bitlen-not-multiple-of-8" // the top-byte mask is computed as max(bits%8, 8)
 				}
-				failf(x, k, "%s has %d bits", d, p.BitLen())
+				failf(x, k, "%s returned a number whose bit length differs from the request%s (%d bits)", d, val, p.BitLen())
 			}
 			switch form {
 			case "blum", "blum-pair":
 				if new(big.Int).Mod(p, bi(4)).Cmp(bi(3)) != 0 {
-					failf(x, "primes/blum/form", "%s is not 3 mod 4", d)
+					failf(x, "primes/blum/form", "%s is not 3 mod 4%s", d, val)
 				}
 			case "safe", "safe-pair":
 				if h := new(big.Int).Rsh(p, 1); !prime(h) {
-					failf(x, "primes/safe/form", "%s: (p-1)/2 is not prime", d)
+					failf(x, "primes/safe/form", "%s: (p-1)/2 is not prime%s", d, val)
 				}
 			}
 		}
@@ -460,10 +486,16 @@ func primesBody() func(*engine.X) {
 				if form == "blum-pair" && (keyLen/2)%8 != 0 {
 					k = "primes/blum/bitlen-not-multiple-of-8"
 				}
-				failf(x, k, "%s(keyLen=%d): p*q has %d bits", kind, keyLen, n.BitLen())
+				failf(x, k, "%s(keyLen=%d): p*q does not have keyLen bits\n (%d bits)", kind, keyLen, n.BitLen())
 			}
 		}
 		desc := func() string { return fmt.Sprintf("%s bits=%d seed#%d", form, bits, seedIdx) }
+		t0 := time.Now()
+		defer func() {
+			if os.Getenv("C17_TIMING") != "" {
+				fmt.Printf("primes timing %s: %v\n", desc(), time.Since(t0))
+			}
+		}()
 		guard(x, "primes/"+form, desc, func() {
 			switch form {
 			case "plain":
@@ -542,6 +574,47 @@ func primesBody() func(*engine.X) {
 				}
 				if _, err := nt.Random(num.N(), 0, rd); err == nil {
 					failf(x, "primes/random/zero", "nt.Random(bitlen=0) accepted")
+				}
+				// range samplers: every draw lies in the requested half-open interval
+				hs := []*big.Int{bi(1), bi(2), bi(3), bi(255), bi(256), pow2(64), new(big.Int).Add(pow2(64), bi(1)), new(big.Int).Sub(pow2(int(bits)), bi(1)), pow2(int(bits))}
+				for _, h := range hs {
+					for _, pad := range []int{0, 1, 64} {
+						hn := numct.NewNatFromBig(h, h.BitLen()+pad)
+						for i := 0; i < 8; i++ {
+							var v numct.Nat
+							x.Case("")
+							if err := v.SetRandomRangeH(hn, rd); err != nil || v.Big().Cmp(h) >= 0 {
+								failf(x, "random/rangeH", "Nat.SetRandomRangeH(%s@%d) out of range or failed\n %v %v", show(h), h.BitLen()+pad, v.Big(), err)
+							}
+							lo := new(big.Int).Rsh(h, 1)
+							var w numct.Nat
+							x.Case("")
+							if err := w.SetRandomRangeLH(natOf(lo), hn, rd); err != nil || w.Big().Cmp(lo) < 0 || w.Big().Cmp(h) >= 0 {
+								failf(x, "random/rangeLH", "Nat.SetRandomRangeLH(%s, %s@%d) out of range or failed\n %v %v", show(lo), show(h), h.BitLen()+pad, w.Big(), err)
+							}
+							nlo := new(big.Int).Neg(h)
+							var z numct.Int
+							x.Case("")
+							if err := z.SetRandomRangeLH(numct.NewIntFromBig(nlo, h.BitLen()), numct.NewIntFromBig(lo, lo.BitLen()+pad), rd); lo.Cmp(nlo) > 0 && (err != nil || z.Big().Cmp(nlo) < 0 || z.Big().Cmp(lo) >= 0) {
+								failf(x, "random/int-rangeLH", "Int.SetRandomRangeLH(%s, %s) out of range or failed\n %v %v", show(nlo), show(lo), z.Big(), err)
+							}
+						}
+					}
+					if h.Cmp(bi(1)) > 0 {
+						zn, _ := num.NewZMod(mustNP(h))
+						u, err := zn.Random(rd)
+						x.Case("")
+						if err != nil || u.Big().Cmp(h) >= 0 {
+							failf(x, "random/zmod", "ZMod(%s).Random out of range or failed\n %v", show(h), err)
+						}
+					}
+				}
+				var v numct.Nat
+				if err := v.SetRandomRangeH(numct.NewNat(0), rd); err == nil {
+					failf(x, "random/rangeH", "Nat.SetRandomRangeH(0) accepted an empty range")
+				}
+				if err := v.SetRandomRangeLH(numct.NewNat(5), numct.NewNat(5), rd); err == nil {
+					failf(x, "random/rangeLH", "Nat.SetRandomRangeLH(5,5) accepted an empty range")
 				}
 			}
 		})
